@@ -24,10 +24,15 @@ Libs ==
 \* cells with an abstract view only, instantiated by cells listed before and after them; outlines with equal consecutive
 \* steps; crossings between non-adjacent layers and on one layer (content, whatever a later stage thinks of them)
 WithView(cl) == [name |-> cl.name, outline |-> cl.outline, metals |-> cl.metals, insts |-> cl.insts, assigns |-> cl.assigns, cuts |-> cl.cuts, view |-> "layout"]
+WithL(cl, ln) == [k \in (DOMAIN cl) \cup {"lname"} |-> IF k = "lname" THEN ln ELSE cl[k]]
 MoreLibs ==
      { Lib(Perm(<< WithView(Cell("top", Outl(<<10>>, <<10>>), 2, << I("i0", "ableaf", <<3, 4>>, FALSE, FALSE), I("i1", "mid", <<0, 0>>, TRUE, FALSE) >>, <<>>, <<>>)),
                    WithView(Cell("mid", Outl(<<6>>, <<6>>), 2, << I("j", "ableaf", <<1, 1>>, FALSE, TRUE) >>, <<>>, <<>>)),
                    [WithView(Cell("ableaf", Outl(<<3, 2>>, <<1, 4>>), 2, <<>>, <<>>, <<>>)) EXCEPT !.view = "abs"] >>, p)) : p \in Perms3 }
+  \* views named differently from their cells: unrelated names, and the NAME OF ANOTHER CELL of the library
+  \cup { Lib(Perm(<< WithL(WithView(Cell("top", Outl(<<10>>, <<10>>), 2, << I("i0", "ableaf", <<3, 4>>, FALSE, FALSE), I("i1", "mid", <<0, 0>>, TRUE, FALSE) >>, <<>>, <<>>)), "top_layout_v2"),
+                   WithL(WithView(Cell("mid", Outl(<<6>>, <<6>>), 2, << I("j", "ableaf", <<1, 1>>, FALSE, TRUE) >>, <<>>, <<>>)), "ableaf"),
+                   WithL([WithView(Cell("ableaf", Outl(<<3, 2>>, <<1, 4>>), 2, <<>>, <<>>, <<>>)) EXCEPT !.view = "abs"], "top") >>, p)) : p \in Perms3 }
   \cup { Lib(<< Cell("steps", o, 1, <<>>, <<>>, <<>>) >>) : o \in { Outl(<<4, 2, 1>>, <<1, 3, 3>>), Outl(<<5, 5, 2>>, <<1, 2, 4>>), Outl(<<7, 7, 7>>, <<2, 2, 2>>),
                                                               Outl(<<0>>, <<0>>), Outl(<<9, 0>>, <<0, 9>>) } }
   \cup { Lib(<< Cell("far", Outl(<<9>>, <<9>>), 4, <<>>, << A("n", 1, 7, 3, 8), A("n", 0, 0, 0, 0), A("m", 3, 2, 0, 5) >>, << X(4, 9, 1, 2), X(2, 2, 2, 3) >>) >>) }
